@@ -26,7 +26,13 @@ inline const char* methName(Method m)
 inline std::string dumpCommon(const Message& m)
 {
     std::vector<std::string> typed, raw, cookies;
-    for (auto& h : m.headers().list()) { std::ostringstream os; h->write(os); typed.push_back(std::string(h->name()) + "=" + toHex(os.str())); }
+    for (auto& h : m.headers().list()) {
+        std::ostringstream os; h->write(os);
+        std::string entry = std::string(h->name()) + "=" + toHex(os.str());
+        // a media type keeps its raw text: show the parsed quality next to it
+        if (auto ct = std::dynamic_pointer_cast<Header::ContentType>(h)) entry += "~q" + (ct->mime().q() ? std::to_string(ct->mime().q()->value()) : std::string("-"));
+        typed.push_back(entry);
+    }
     for (auto& kv : m.headers().rawList()) raw.push_back(lowerHex(kv.second.name()) + ":" + toHex(kv.second.value()));
     for (auto it = m.cookies().begin(); it != m.cookies().end(); ++it) cookies.push_back(toHex(it->name) + ":" + toHex(it->value));
     return "typed=" + joinSorted(typed) + " raw=" + joinSorted(raw) + " cookies=" + joinSorted(cookies) + " body=" + toHex(m.body());
